@@ -189,14 +189,67 @@ pub fn run(seed: u64, count: usize, outdir: &str) -> std::io::Result<i32> {
         let vrows = grad_eval(&vm, &dag.vs, &pts, &seeds);
         let mut text = String::from("g");
         match &vrows { Ok(rows) => for row in rows { for g in row { write!(text, " {}", gbits(g)).unwrap(); } }, Err(_) => text.push_str(" panic") }
+        // gradient through the shape wrapper with a (possibly projective) transform: last root, first point, unit seeds
+        let tmat = crate::c03::gen_matrix(&mut r);
+        let mut tbad: Vec<String> = vec![];
+        let with_t = dag.vs.is_empty();
+        if with_t {
+            use fidget_core::shape::Shape;
+            use fidget_core::vm::VmFunction;
+            let last = *roots.last().unwrap();
+            let tr = catch_unwind(AssertUnwindSafe(|| {
+                let shape = Shape::<VmFunction>::new(&dag.ctx, last).unwrap();
+                let tape = shape.grad_slice_tape(Default::default());
+                let mut e = Shape::<VmFunction>::new_grad_slice_eval();
+                let p = &pts[0];
+                let (xs, ys, zs) = ([Grad::new(p[0], 1.0, 0.0, 0.0)], [Grad::new(p[1], 0.0, 1.0, 0.0)], [Grad::new(p[2], 0.0, 0.0, 1.0)]);
+                e.eval_with_transform(&tape, &xs, &ys, &zs, &tmat).unwrap()[0]
+            }));
+            match tr { Ok(g) => {
+                write!(text, " | t {}", gbits(&g)).unwrap();
+                // chain rule in f64: grad(f o T)(p) = J_T(p)^T grad f(T p), with T the projective map of the matrix
+                let p = &pts[0];
+                let m = |i: usize, j: usize| tmat[(i, j)] as f64;
+                let pp = [p[0] as f64, p[1] as f64, p[2] as f64];
+                let w = m(3, 0) * pp[0] + m(3, 1) * pp[1] + m(3, 2) * pp[2] + m(3, 3);
+                let tp: Vec<f64> = (0..3).map(|i| (m(i, 0) * pp[0] + m(i, 1) * pp[1] + m(i, 2) * pp[2] + m(i, 3)) / w).collect();
+                if w.abs() > 1e-3 && tp.iter().all(|v| v.is_finite() && v.abs() < 1e6) {
+                    let inner = catch_unwind(AssertUnwindSafe(|| {
+                        let shape = Shape::<VmFunction>::new(&dag.ctx, last).unwrap();
+                        let tape = shape.grad_slice_tape(Default::default());
+                        let mut e = Shape::<VmFunction>::new_grad_slice_eval();
+                        let (xs, ys, zs) = ([Grad::new(tp[0] as f32, 1.0, 0.0, 0.0)], [Grad::new(tp[1] as f32, 0.0, 1.0, 0.0)], [Grad::new(tp[2] as f32, 0.0, 0.0, 1.0)]);
+                        e.eval(&tape, &xs, &ys, &zs).unwrap()[0]
+                    }));
+                    if let Ok(gi) = inner {
+                        let gf = [gi.dx as f64, gi.dy as f64, gi.dz as f64];
+                        let got = [g.dx as f64, g.dy as f64, g.dz as f64];
+                        let mut worst = 0.0f64; let mut scale = 1e-6f64;
+                        for j in 0..3 {
+                            let want: f64 = (0..3).map(|i| gf[i] * (m(i, j) - tp[i] * m(3, j)) / w).sum();
+                            let terms: f64 = (0..3).map(|i| (gf[i] * (m(i, j) - tp[i] * m(3, j)) / w).abs()).sum();
+                            scale = scale.max(terms);
+                            if want.is_finite() && got[j].is_finite() { worst = worst.max((want - got[j]).abs()); }
+                        }
+                        // only where the function is smooth enough for the comparison to mean something: the value agrees
+                        if gf.iter().all(|v| v.is_finite()) && (gi.v - g.v).abs() <= 1e-4 * (1.0 + g.v.abs()) && scale < 1e6 && worst > 2e-2 * scale {
+                            tbad.push(format!("kind=transform-gradient backend=vm got {:?} but J^T grad f = chain rule differs by {worst:.4} (scale {scale:.4}) matrix {:?} point {:?}", got, tmat.as_slice(), p));
+                        }
+                    }
+                }
+            }, Err(_) => text.push_str(" | t panic") }
+        } else { text.push_str(" | t x"); }
         impls.push_str(&text); impls.push('\n');
         let mut line = format!("c05 {} {}", fmt_arena(&dag.ctx, &dag.vs), dag.roots.len());
         for rt in &dag.roots { write!(line, " {}", rt.verif_index()).unwrap(); }
         write!(line, " {nvars} {npts}").unwrap();
         for (p, s) in pts.iter().zip(&seeds) { for j in 0..nvars { write!(line, " {} {} {} {}", canon_bits(p[j]), canon_bits(s[j][0]), canon_bits(s[j][1]), canon_bits(s[j][2])).unwrap(); } }
+        write!(line, " {}", with_t as u8).unwrap();
+        if with_t { for i in 0..4 { for j in 0..4 { write!(line, " {}", canon_bits(tmat[(i, j)])).unwrap(); } } }
         cases.push_str(&line); cases.push('\n');
         // ---- oracle
         let mut bad = vec![];
+        bad.extend(tbad);
         let jrows = grad_eval(&jit, &dag.vs, &pts, &seeds);
         for (name, rows) in [("vm", &vrows), ("jit", &jrows)] {
             let Ok(rows) = rows else { bad.push(format!("kind=panic backend={name}")); continue; };
